@@ -89,7 +89,7 @@ Definition proxy_holds (mac : str -> str -> str) (o : pobs) : bool :=
   (str_eqb uri ((if po_secure o then s_https else s_http) ++ colon_slash_slash ++ po_host o ++ [47]) ||
    (negb (po_origin_form o) && str_eqb uri ([47; 47] ++ po_host o ++ [47]))) &&
   (* the timestamp is the current time, in canonical decimal *)
-  str_eqb ts (dec (po_ts o)) && (po_clock o <=? po_ts o)%Z && (po_ts o <=? po_clock o + 5)%Z &&
+  str_eqb ts (dec (po_ts o)) && (po_clock o <=? po_ts o)%Z && (po_ts o <=? po_clock o + 60)%Z &&
   (* the signature is base64url(HMAC(secret, uri ++ ts)) *)
   str_eqb sg (b64_encode (mac (po_secret o) (uri ++ ts))).
 
